@@ -448,9 +448,9 @@ def run_case(impl: Impl, kind: str, inp: Any) -> dict:
         if obs is None:
             fails.append("component schemas: the loader raised RuntimeError (name derivation is not total)")
         else:
-            held = sorted(i for _, i in obs)
-            if held != list(range(len(inp))):
-                lost = [inp[i] for i in range(len(inp)) if i not in held]
+            held = {i for _, i in obs}          # a schema registered twice is a duplicate, not a drop or a merge
+            lost = [inp[i] for i in range(len(inp)) if i not in held]
+            if lost or not held <= set(range(len(inp))):
                 fails.append(f"component schemas: {len(inp)} declared, {len(obs)} kept; dropped or merged: {lost}")
         return {"input": {"kind": kind, "arg": inp}, "obs": obs, "oracle_fail": fails}
     if kind == "pipeline":
